@@ -64,15 +64,16 @@ def make_prov(inst):
 
 
 def compile_hints(prov):
-    """the component structure compile() derives from the provenance (same numpy / scipy calls): per component, in
-    order, the sorted factor units and the sorted leaf units; [] in the chain case"""
+    """the inputs of compile()'s graph step recomputed with the same numpy / scipy calls -- the visiting order
+    np.argsort(degrees) and scipy's connected components -- and the component structure derived from them the way the code
+    does (per component, in order, the sorted factor units and the sorted leaf units); None in the chain case"""
     import numpy as np
     from functools import partial
     from itertools import combinations, chain
     from scipy.sparse import csr_matrix
     from scipy.sparse.csgraph import connected_components
     if prov.max_conjunctions == 1:
-        return []
+        return None
     tuple_units = [np.sort(np.delete(a, np.asarray(a == -1).nonzero())) for a in prov.data[:, 0, :, 0]]
     pairings = np.array(list(set(chain.from_iterable(map(partial(combinations, r=2), tuple_units)))))
     unique, unique_counts = np.unique(pairings, return_counts=True)
@@ -86,11 +87,14 @@ def compile_hints(prov):
     for unit, comp in enumerate(index):
         components[comp].add(unit)
     leaf, available = set(), set(range(prov.num_units))
-    for unit in np.argsort(degrees):
+    order = [int(u) for u in np.argsort(degrees)]
+    for unit in order:
         if unit in available:
             leaf.add(int(unit))
             available.difference_update(neighbors.getrow(unit).indices)
-    return [[sorted(int(u) for u in c - leaf), sorted(int(u) for u in c & leaf)] for c in components]
+    return {"hints": [[sorted(int(u) for u in c - leaf), sorted(int(u) for u in c & leaf)] for c in components],
+            "order": order, "components": [sorted(int(u) for u in c) for c in components],
+            "degrees": [int(x) for x in degrees]}
 
 
 def run_one(inst):
@@ -112,7 +116,7 @@ def run_one(inst):
                 res = oracle.query(target=prov.units[target], boundary_with=t1, boundary_without=t2)
                 assert [k.value for k in res.keys()] == dom
                 queries.append([target, t1, t2, [int(x) for x in res.values()]])
-    return {"add": dumped, "locs": locs, "queries": queries, "chain": prov.max_conjunctions == 1, "hints": compile_hints(prov)}
+    return {"add": dumped, "locs": locs, "queries": queries, "chain": prov.max_conjunctions == 1, "graph": compile_hints(prov)}
 
 
 def run_impl(c):
@@ -133,8 +137,10 @@ def emit_one(inst, o):
     locs = cf.lst([cf.lst(["(%s, %s, %s)" % (cf.nat(a), cf.nat(b), cf.b(c)) for a, b, c in row]) for row in o["locs"]])
     qs = cf.lst(["(%s, %s, %s, %s)" % (cf.nat(tg), cf.nat(t1), "None" if t2 is None else "(Some %s)" % cf.nat(t2), cf.nats(cn))
                  for tg, t1, t2, cn in o["queries"]])
-    hints = cf.lst(["(%s, %s)" % (cf.nats(f), cf.nats(l)) for f, l in o.get("hints", [])])
-    return "(mkCase %s %s %s %s %s %s)" % (prob_term(inst), c10.add_term(o["add"], t), locs, cf.b(o["chain"]), hints, qs)
+    g = o.get("graph") or {"hints": [], "order": [], "components": [], "degrees": []}
+    hints = cf.lst(["(%s, %s)" % (cf.nats(f), cf.nats(l)) for f, l in g["hints"]])
+    return "(mkCase %s %s %s %s %s %s %s %s %s)" % (prob_term(inst), c10.add_term(o["add"], t), locs, cf.b(o["chain"]), hints,
+                                                 cf.nats(g["order"]), cf.lst([cf.nats(c) for c in g["components"]]), cf.nats(g["degrees"]), qs)
 
 
 def emit(c, o):
@@ -172,7 +178,7 @@ def distribution(cases, outs):
             "multi_unit_rows": sum(1 for i in flat if any(len(r) > 1 for r in i["rows"])),
             "units_owning_no_row": sum(1 for i in flat if set(range(i["n"])) - set(u for r in i["rows"] for u in r)),
             "compile_model_compared_structurally": sum(1 for o in outs if isinstance(o, dict) and "exc" not in o
-                                                        for oo in (o["multi"] if "multi" in o else [o]) if oo.get("hints")),
+                                                        for oo in (o["multi"] if "multi" in o else [o]) if oo.get("graph")),
             "queries": sum(len(oo["queries"]) for o in outs if isinstance(o, dict) and "exc" not in o
                            for oo in (o["multi"] if "multi" in o else [o])),
             "exceptions": dict(Counter(o["exc"] for o in outs if isinstance(o, dict) and "exc" in o))}
@@ -208,12 +214,17 @@ MANIFEST = {
             "component a header tree over the factor units with 2^f copies of the chain over the leaf units, components "
             "concatenated; row locations) and for EVERY admissible component structure (hints_ok: components partition "
             "the units, each has a leaf, each row lies in one component with at most one leaf) the oracle over the "
-            "modelled diagram is exact. What is left to correspondence: that the graph step (scipy connected components, "
-            "greedy independent set) delivers hints_ok and that the implementation builds the modelled diagram -- both "
-            "evaluated inside Coq on every instance (hints_ok, node-by-node equality). Tied to the code at unit level: every target x boundary pair of every instance is queried; "
+            "modelled diagram is exact; C09_compile_graph_exact -- the GRAPH STEP of compile() is modelled too (select_leaves: greedy "
+            "maximal independent set of the 'appear together in a row' graph in any visiting order; build_hints) and for EVERY "
+            "visiting order that is a permutation of the units and EVERY row-closed partition of the units (graph_ok) the "
+            "derived structure is admissible (C09_graph_hints_ok: independence gives at most one leaf per row, maximality a "
+            "leaf in every part) and the oracle is exact. What is left to correspondence: that numpy's argsort returns a "
+            "permutation and scipy's connected components a row-closed partition (graph_ok, evaluated inside Coq on every "
+            "instance together with: order sorted by the modelled degrees, build_hints = the structure the code derives) and "
+            "that the implementation builds the modelled diagram (node-by-node equality). Tied to the code at unit level: every target x boundary pair of every instance is queried; "
             "result dictionaries vs the oracle model on the dumped compiled diagram and vs the counting specification.",
-    "note": "Trusted: Coq kernel + vm_compute; harness; compile() in the leaf/factor case validated per instance, not "
-            "proved. F12 (one-unit instances) is an open known finding.",
+    "note": "Trusted: Coq kernel + vm_compute; harness; of compile() only numpy's argsort / scipy's connected components are "
+            "outside the model (their results are inputs, checked by graph_ok per instance). F12 (one-unit instances) is an open known finding.",
     "technique": "Coq proof (edge-update semantics by associativity/commutativity of saturating addition, structural "
                  "invariants of restrict and of the product construction, the C10 theorems for sum/restrict/modelcount) + "
                  "executable oracle model; exhaustive per-instance query correspondence and translation validation of "
